@@ -134,6 +134,18 @@ type Sim struct {
 	pctChange map[int]bool
 	rrNext    int
 	starved   time.Duration
+	fair      bool
+}
+
+// Fair switches the rest of the run to a fair schedule: round-robin over the runnable goroutines
+// and no clock advance while anything is runnable. Bounded-liveness oracles ("once faults stop,
+// X happens within N simulated seconds") are only meaningful under such a schedule; an unfair
+// scheduler that lets simulated minutes pass while one goroutine spins is itself a fault.
+// Fair choices consume nothing from the tape, in generation and in replay alike.
+func (s *Sim) Fair() {
+	s.mu.Lock()
+	s.fair = true
+	s.mu.Unlock()
 }
 
 // Starved returns the simulated time the scheduler let pass although goroutines were runnable.
@@ -466,6 +478,27 @@ func (s *Sim) nextEventIn() (time.Duration, bool) {
 func (s *Sim) choose(cands []*G) int {
 	n := len(cands)
 	t := s.Tape
+	s.mu.Lock()
+	fair := s.fair
+	s.mu.Unlock()
+	if fair {
+		idx, bestID := 0, -1
+		for i, g := range cands {
+			if g.id >= s.rrNext && (bestID < 0 || g.id < bestID) {
+				bestID, idx = g.id, i
+			}
+		}
+		if bestID < 0 {
+			low := cands[0].id
+			for i, g := range cands {
+				if g.id <= low {
+					low, idx = g.id, i
+				}
+			}
+		}
+		s.rrNext = cands[idx].id + 1
+		return idx
+	}
 	if t.replay {
 		return t.Next(n + 1)
 	}
